@@ -129,7 +129,7 @@ jax.tree_util.register_pytree_node_class(GridLandscape)
 
 
 def case_landscape(rng: Any, ctx: Ctx, index: int) -> None:
-    dt = np.float64 if ctx.x64 and rng.integers(2) else np.float32
+    dt = gen.pick(rng, [np.float64, np.float32, np.float16])   # float64 landscapes are the default, also with 64-bit mode off
     stokes = gen.pick(rng, ['I', 'QU', 'IQU', 'IQUV'])
     which = gen.pick(rng, ['healpix', 'frequency', 'grid', 'config'])
     LOG.case_key(f'landscape:{which}:{stokes}:{np.dtype(dt).name}', True)
